@@ -296,7 +296,8 @@ def check_C06(chk):
         for k in range(0, ncalls + 2):
             for surv in (0, 1):
                 ccases.append({"id": next(cid), "len": shapes[npk], "k": k, "survivor": surv, "natt": 0, "observe": "select", "npk": npk, "S": 4096})
-    for it in PCN.run_crash(bins["default"], 4096, ccases):
+    citems = PCN.run_crash(bins["default"], 4096, ccases)
+    for it in citems:
         why = PCN.crash_oracle(it)
         if why:
             fails.append((it, why))
@@ -304,6 +305,36 @@ def check_C06(chk):
             chk.failing_input("a set member whose sender process was killed before its call %d of a %d-packet send: %s" % (c["k"], c["npk"], why),
                               {"input": c, "child_progress": it["child"], "observed": it["rec"]}, key="c06crash:npk=%d k=%d survivor=%d" % (c["npk"], c["k"], c["survivor"]))
     chk.coverage["crash_member_scenarios"] = len(ccases)
+    # ... and the same runs replayed on the RSet LTS with the interrupted message marked torn (message ids: 1 = the small message,
+    # 2 = the multi-fragment one, 3 = the survivor's): exact event list of the one select() the observer needs
+    ctodo = []
+    for it in citems:
+        c, rec, chd = it["case"], it["rec"], it["child"]
+        if rec is None or rec["hang"]:
+            continue
+        pre = ["LNewChan"] + (["LSend 0 1"] if chd["p_sent"] else []) + (["LSend 0 2"] if chd["t_first"] else []) + \
+              (["LSend 0 3"] if c["survivor"] else ["LHup 0"]) + ["LAdd 0"]
+        torn = ["2"] if chd["t_first"] and chd["t_follow"] < c["npk"] - 1 else []   # whole once the last fragment is out
+        ids = {(7, 0): 1, (7, 1): 2, (9, 0): 3}
+        obs = []
+        for e in rec["log"]:
+            if isinstance(e, dict) and "msg" in e:
+                obs.append("EvMsg 0 %d" % ids.get((e["msg"][0], e["msg"][1]), 99))
+            elif e == "Disconnected":
+                obs.append("EvClosed 0")
+            elif isinstance(e, str):
+                obs.append("EvClosed 77")   # an error word: never matches
+        ctodo.append((len(ctodo), "check_rset_torn [%s] [%s] 1 [%s]" % ("; ".join(torn), "; ".join(pre), "; ".join(obs)), it))
+    cres, cerrors = C.coq_eval_sharded(header, [(i, t) for i, t, _ in ctodo], lambda p: "Eval vm_compute in (%d, %s)." % p, "c06crash", shard=20)
+    cbad = [(t, it) for i, t, it in ctodo if cres.get(i) != "true"]
+    chk.coverage["crash_member_scenarios_replayed_on_model"] = len(ctodo) - len(cbad)
+    if cerrors:
+        chk.unproved("model evaluation (coqc on crash-member cases) failed", cerrors[0][-1500:])
+    if cbad and not fails:
+        t, it = cbad[0]
+        chk.unproved("correspondence RSetCheck.check_rset_torn: what a set reports about a member whose sender was killed inside a send differs from the RSet LTS on %d of %d kill points"
+                     % (len(cbad), len(ctodo)), {"input": it["case"], "child_progress": it["child"], "observed": it["rec"], "model_term": t})
+    bad = bad + [it for _, it in cbad]
     # the typed IpcReceiverSet inside whole-API programs (members with embedded endpoints / regions / undecodable messages, sets dropped
     # with pending traffic), against the Api model: default and in-process builds
     from . import props_prog as PP
@@ -330,7 +361,9 @@ def gen_router_cases(rng, n, stops):
                       # the last proxy handle owned by a route's callback (released on the router thread when that route closes)
                       "owned": stop == "proxydrop" and k % 2 == 1,
                       # shutdown() called from inside a callback that runs on another router's thread
-                      "cross": stop == "shutdown" and k % 4 == 2})
+                      "cross": stop == "shutdown" and k % 4 == 2,
+                      # the router thread is parked in a callback when shutdown() is requested; routes are offered meanwhile from 4 threads
+                      "busy": 120 if (stop == "shutdown" and k % 4 == 0) else 0})
     # routers that never get a route before they are stopped (then late routes are offered)
     for j, stop in enumerate([s for s in ("shutdown", "proxydrop") if s in stops]):
         cases.append({"id": n + 1 + j, "plan": [], "noroutes": True, "threads": 1, "stop": stop, "nshut": 1 + j, "late": 0, "wave2": 0, "slowdrop": 0})
@@ -340,7 +373,7 @@ def gen_router_cases(rng, n, stops):
 def router_line(c):
     return "id=%d plan=%s threads=%d stop=%s nshut=%d late=%d wave2=%d slowdrop=%d%s" % (
         c["id"], ";".join("%d,%d,%d,%s" % (b, a, 1 if d else 0, (x if isinstance(x, str) else "x") if x else "c") for b, a, d, x in c["plan"]) or ("none" if c.get("noroutes") else "0,0,1,c"),
-        c["threads"], c["stop"], c["nshut"], c["late"], c.get("wave2", 0), c.get("slowdrop", 0), (" owned=1" if c.get("owned") else "") + (" cross=1" if c.get("cross") else ""))
+        c["threads"], c["stop"], c["nshut"], c["late"], c.get("wave2", 0), c.get("slowdrop", 0), (" owned=1" if c.get("owned") else "") + (" cross=1" if c.get("cross") else "") + ((" busy=%d" % c["busy"]) if c.get("busy") else ""))
 
 
 def router_oracle(c, rec, prop):
@@ -405,12 +438,17 @@ def router_oracle(c, rec, prop):
         for h in [e[1] for e in log if e[1] >= 2000]:
             pass
         if any(e[0] == "call" and e[1] >= 2000 for e in log):
-            return "a route offered after shutdown() had returned was invoked"
+            return "a route offered after shutdown() had returned (or while it was pending) was invoked"
         if not any(e[0] == "drop" and e[1] == 2000 for e in log):
             return "a route offered after shutdown() had returned was not dropped"
         for j in range(c["late"]):
             if sum(1 for e in log if e[0] == "drop" and e[1] == 1000 + j) != 1:
                 return "a route offered while shutdown was in progress was not dropped exactly once"
+        if c.get("busy"):
+            for j in range(4):
+                if sum(1 for e in log if e[0] == "drop" and e[1] == 3000 + j) != 1:
+                    return ("a route offered from another thread while a shutdown request was pending (the router thread busy in a callback for %d ms) was not dropped exactly once"
+                            % c["busy"])
     if rec["stop"] == "proxydrop":
         if not rec["stop_ok"]:
             return "the proxy's last handle%s was never released" % (" (owned by a route's callback, released on the router thread)" if c.get("owned") else "")
@@ -546,7 +584,7 @@ def check_C20(chk):
         if k % 5 == 4:
             # a backlog larger than any per-event budget, queued before the conversion or sent in one go afterwards, then silence
             j = rng.randrange(n)
-            plan[j] = (rng.choice([0, 70, 150, 300]), rng.choice([0, 66, 140]), rng.random() < 0.7)
+            plan[j] = (rng.choice([0, 70, 150, 260]), rng.choice([0, 66, 140]), rng.random() < 0.7)   # at most 278 small messages fit into an unread socket
         poison = None
         if k % 4 == 3:
             cand = [i for i, (b, a, d) in enumerate(plan) if a >= 2]
@@ -558,9 +596,11 @@ def check_C20(chk):
                                            (" poison=%d:%d" % c["poison"]) if c["poison"] else "") for c in cases]
     chunks = [list(range(len(cases)))[i::6] for i in range(6)]
     # abandoned streams: a consumer drops its stream while the sender keeps sending; other streams must not notice
+    unit_lines = ["id=%d op=unit before=%d after=%d" % (9100 + i, b, a) for i, (b, a) in enumerate([(0, 1), (3, 0), (2, 5), (70, 70)])]
     arecs, _, arc, aerr = C.run_harness(bins["async"], "async", ["id=9001 op=abandon rounds=%d k=3" % (2000 if thorough else 300),
-                                                                   "id=9002 op=abandon rounds=%d k=25" % (500 if thorough else 60)], shim=False, timeout=600)
+                                                                   "id=9002 op=abandon rounds=%d k=25" % (500 if thorough else 60)] + unit_lines, shim=False, timeout=600)
     abandon = [r for r in arecs if r.get("kind") == "abandon"]
+    units = [r for r in arecs if r.get("kind") == "unit"]
 
     def run(idx):
         recs, _, rc, err = C.run_harness(bins["async"], "async", [lines[i] for i in idx], shim=False, timeout=900)
@@ -612,6 +652,19 @@ def check_C20(chk):
         todo.append((k, "check_async [%s] [%s]" % ("; ".join(pre), "; ".join(obs))))
     for c, r, why in fails[:8]:
         chk.failing_input(why, {"scenario": lines[c["id"] - 1], "observed": r}, key=lines[c["id"] - 1][:300])
+    # items whose encoding is empty: only their number travels
+    if len(units) < len(unit_lines) and len(abandon) == 2:
+        fails.append((None, None, "unit"))
+        chk.failing_input("the empty-item stream scenario did not complete: %s" % aerr[-300:], {"scenario": "op=unit"}, key="unit:none")
+    for r in units:
+        tot = r["before"] + r["after"]
+        if r["hang"] or r["counts"] != [tot, tot, 0]:
+            fails.append((None, r, "unit"))
+            chk.failing_input("streams of items whose encoding is empty ((), unit struct + PhantomData): %d sent before and %d after the conversion, sender dropped: %s"
+                              % (r["before"], r["after"], "the streams never ended (watchdog)" if r["hang"] else "yielded %s / %s items (%s errors) instead of %d each"
+                                 % (r["counts"][0], r["counts"][1], r["counts"][2], tot)), {"scenario": "op=unit before=%d after=%d" % (r["before"], r["after"]), "observed": r},
+                              key="unit:%d:%d" % (r["before"], r["after"]))
+    chk.coverage["empty_item_stream_scenarios"] = len(units)
     if len(abandon) < 2:
         fails.append((None, None, "abandon"))
         chk.failing_input("the abandoned-stream scenario did not complete: %s" % aerr[-300:], {"scenario": "op=abandon"}, key="abandon:none")
@@ -808,7 +861,8 @@ def check_C10(chk):
     for npk in (1, 2, 3):
         for k in range(0, 1 + (1 if npk == 1 else 3 + npk) + 2):
             ccases.append({"id": next(cid), "len": shapes[npk], "k": k, "survivor": 1, "natt": 0, "nreg": 0, "observe": "timeout_idle", "npk": npk, "S": 4096})
-    for it in PCN.run_crash(bins["default"], 4096, ccases):
+    citems = PCN.run_crash(bins["default"], 4096, ccases)
+    for it in citems:
         why = PCN.crash_oracle(it)
         if why:
             c0 = it["case"]
@@ -816,6 +870,9 @@ def check_C10(chk):
             chk.failing_input("timed receive after a sender process was killed before its call %d of a %d-packet send: %s" % (c0["k"], c0["npk"], why),
                               {"input": c0, "child_progress": it["child"], "observed": it["rec"]}, key="c10crash:npk=%d k=%d" % (c0["npk"], c0["k"]))
     chk.coverage["timed_receive_after_crash_scenarios"] = len(ccases)
+    tbad_n, _, terrs = PCN.idle_model_eval(chk, citems, "c10t", report=not fails)
+    if terrs:
+        chk.unproved("model evaluation (coqc on timed receives after a crash) failed", terrs[0][-1500:])
     header = "From Coq Require Import ZArith List Bool.\nFrom IPC Require Import Timed TimedCheck.\nImport ListNotations.\nOpen Scope Z_scope.\n"
     res, errors = C.coq_eval_sharded(header, todo, lambda p: "Eval vm_compute in (%d, %s)." % p, "c10", shard=40)
     bad = [items[i] for i, _ in todo if res.get(i) != "true"]
@@ -840,7 +897,7 @@ def check_C10(chk):
     chk.assumptions += ["elapsed wall-clock time is runtime behaviour the model cannot exhibit: the theorem fixes the poll argument (floor of the duration in ms, -1 if it does not fit), "
                         "the driver measures the elapsed time as a plausibility oracle ('at least the requested time to millisecond granularity' is read as floor(d / 1 ms))",
                         "poll(2) semantics (returns early on POLLIN / hang-up) are kernel behaviour"]
-    finish_proof(chk, proof_ok, fails, bad)
+    finish_proof(chk, proof_ok, fails, bad + [None] * tbad_n)
 
 
 # ------------------------------------------------------------------ C05 (shm driver)
@@ -1037,6 +1094,36 @@ def check_C08(chk):
         elif not r["gone"] or not r["dir_gone"] or r["tmp_after"] != r["tmp_before"]:
             fails.append(({"op": "forkaccept", "unused": r["unused"]}, r, "a server created in one process and %s in a forked child leaves its socket file / temp dir behind"
                           % ("dropped unused" if r["unused"] else "accepted")))
+    # long temporary directories: the socket path has to fit into sockaddr_un (108 bytes); whatever the library does with a name that
+    # comes close to the limit, the name it hands out must lead a client to this server, in order, and nothing may stay behind
+    long_n = 0
+    for L in (60, 80, 89, 90, 92, 94):
+        base = os.path.join(C.BUILD, "tmp", "long-%d-%d" % (os.getpid(), L))
+        ldir = base + "/" + "d" * (L - len(base) - 1)
+        if len(ldir) != L:
+            continue
+        os.makedirs(ldir, exist_ok=True)
+        llines = ["id=%d order=%s client=%s sizes=10,300,10" % (7000 + i, o, k) for i, (o, k) in enumerate((("accept_first", "thread"), ("connect_first", "fork"), ("mid", "spawn")))]
+        lrecs, _, _, lerr = C.run_harness(bins["default"], "server", llines, env_extra={"TMPDIR": ldir}, shim=False, timeout=120)
+        lby = {r["id"]: r for r in lrecs if r.get("kind") == "server"}
+        for i, l in enumerate(llines):
+            r = lby.get(7000 + i)
+            why = None
+            if r is None:
+                why = "no result (the harness died or the rendezvous blocked): %s" % lerr[-200:]
+            elif not r["accepted"].get("ok"):
+                why = "accept failed or blocked for ever: %s" % r["accepted"].get("err")
+            elif r["seqs"] != [0, 1, 2] or not r["intact"] or r["ended"] != "Disconnected":
+                why = "the receiver returned by accept yielded %s (intact=%s), then %s" % (r["seqs"], r["intact"], r["ended"])
+            if why:
+                fails.append(({"tmpdir_length": L, "scenario": l}, r, "temporary directory whose path is %d bytes long: %s" % (L, why)))
+        left = os.listdir(ldir)
+        if left and not any("tmpdir_length" in (f[0] or {}) for f in fails):
+            fails.append(({"tmpdir_length": L}, None, "temporary directory whose path is %d bytes long: %s left behind after every server was accepted and dropped" % (L, left[:3])))
+        long_n += len(llines)
+        import shutil
+        shutil.rmtree(base, ignore_errors=True)
+    chk.coverage["long_tmpdir_scenarios"] = long_n
     # in-process transport: same scenarios with a thread client
     ilines = [l for l, c in zip(lines, cases) if c["client"] == "thread"] + [l for l, c in zip(nlines, noshow) if c["client"] == "thread"]
     irecs, _, _, ierr = C.run_harness(bins["inprocess"], "server", ilines, shim=False, timeout=300)
